@@ -18,20 +18,27 @@ CM = "/opt/veriftools/tla/CommunityModules-deps.jar"
 _scratch = None
 
 
+_scratch_lock = __import__("threading").Lock()
+
+
 def scratch():
     """per-process scratch directory under /verif/.run, removed at exit"""
     global _scratch
-    if _scratch is None:
-        _scratch = os.path.join(VERIF, ".run", str(os.getpid()))
-        os.makedirs(_scratch, exist_ok=True)
-        owner = os.getpid()
+    with _scratch_lock:  # several threads start TLC runs at once: publish the path only once the directory exists
+        if _scratch is None:
+            path = os.path.join(VERIF, ".run", str(os.getpid()))
+            os.makedirs(path, exist_ok=True)
+            owner = os.getpid()
 
-        def _cleanup(path=_scratch):
-            # forked worker processes inherit this handler: only the creating process may remove the directory
-            if os.getpid() == owner:
-                shutil.rmtree(path, True)
+            def _cleanup(path=path):
+                # forked worker processes inherit this handler: only the creating process may remove the directory
+                if os.getpid() == owner:
+                    shutil.rmtree(path, True)
 
-        atexit.register(_cleanup)
+            atexit.register(_cleanup)
+            _scratch = path
+        elif not os.path.isdir(_scratch):
+            os.makedirs(_scratch, exist_ok=True)
     return _scratch
 
 
